@@ -118,7 +118,7 @@ def generate(rng, tier, shard, nshards, mon):
                            "imposed": imposed, "sys": True}
                 idx += 1
     mon.exhaustive["small-scope trees x all descriptors x {no, +1/+2} imposed shape"] = True
-    ntensors = (6400 if tier == "quick" else 48000) // nshards + 1
+    ntensors = (1200 if tier == "quick" else 40000) // nshards + 1
     for _ in range(ntensors):
         base = _random_tensor(rng)
         depth = base["depth"]
@@ -145,7 +145,7 @@ def _random_tensor(rng):
         # longer fibers (binary search, slices): one rank 8..24 wide, fairly dense
         extents[rng.randrange(depth)] = rng.randint(8, 24)
         spec = gen.rand_tree_spec(rng, extents, rng.choice([0.3, 0.6, 0.9]), rng.choice([0.0, 0.3]), 0)
-        return {"kind": "enc", "depth": depth, "spec": spec, "shape": rng.choice([list(extents), None])}
+        return {"kind": "enc", "depth": depth, "spec": spec, "shape": rng.choice([list(extents), None]) if spec else list(extents)}
     if rng.random() < 0.12:
         wide = rng.randrange(depth)
         extents[wide] = rng.choice([31, 32, 33, 63, 64, 65, 70])
@@ -339,7 +339,7 @@ class StubCache(dict):
 
 
 def quiet():
-    return contextlib.redirect_stdout(_Null())
+    return contextlib.nullcontext()         # stdout is redirected once per case in run_case
 
 
 def build_tensor(case):
@@ -390,9 +390,13 @@ def _scan(fiber, base, cap, leaf):
 # the case
 # ------------------------------------------------------------------------------------------
 def run_case(case, mon):
+    with contextlib.redirect_stdout(_Null()):       # the codec prints on almost every call
+        _run_case(case, mon)
+
+
+def _run_case(case, mon):
     depth, desc = case["depth"], case["desc"]
     want = gen.content_of_spec(case["spec"], 0)
-    tag = desc_class(desc)
     try:
         with quiet():
             t = build_tensor(case)
@@ -455,7 +459,7 @@ def run_case(case, mon):
             except (DecodeError, KeyError):
                 pass
         if not classified:
-            mon.violation(f"decode:{problem[0]}:{tag}",
+            mon.violation(f"decode:{problem[0]}" + (":imposed-shape" if imposed is not None and imposed != own else ""),
                           f"{desc} shape={shape}: arrays {out} do not decode to the tensor: {problem[1][:400]}")
             recs = None
     else:
@@ -498,12 +502,6 @@ def run_case(case, mon):
             _check_size(mon, fib, expected_size(rec, desc), fmt, desc, rec)
     if had_empty:
         mon.count("empty_fiber_cases")
-
-
-def desc_class(desc):
-    """Descriptor reduced to a mechanism-level class: the set of formats and of parent>child format pairs involved
-    is input-independent enough for a key only in aggregate, so keys carry just the formats present."""
-    return "".join(f for f in FMTS if f in desc)
 
 
 def _diff(got, want):
